@@ -175,7 +175,7 @@ class CaseBuilder:
         return hashlib.sha1(json.dumps([self.prog, hist], sort_keys=True).encode()).hexdigest()
 
 def gen_case(rng, cid, dbdir=None, cyclic=False, modes=("sync", "det"), cancel_p=0.25, restart_p=0.15,
-             nsteps=(3, 7), db_p=0.5, sigchange_p=0.3, rewire_p=0.3, rewire_cyclic=False, adversarial=False, allow=None, verify=False, repeat_p=0.0):
+             nsteps=(3, 7), db_p=0.5, sigchange_p=0.3, rewire_p=0.3, rewire_cyclic=False, adversarial=False, allow=None, verify=False, repeat_p=0.0, ver_p=0.0):
     prog = gen_program(rng, cyclic=cyclic) if allow is None else gen_program(rng, cyclic=cyclic, allow=allow)
     ext = {l: rng.randrange(2) for l in LEAVES}; ext.update({k: 0 for k in DERIVED})
     cb = CaseBuilder(cid, prog, ext)
@@ -186,6 +186,7 @@ def gen_case(rng, cid, dbdir=None, cyclic=False, modes=("sync", "det"), cancel_p
     usedb = dbdir is not None and rng.random() < db_p
     dbpath = "%s/%s.db" % (dbdir, cid) if usedb else None
     cb.engine(db=dbpath)
+    ver = 1
     n = rng.randint(*nsteps)
     for _ in range(n):
         r = rng.random()
@@ -209,7 +210,8 @@ def gen_case(rng, cid, dbdir=None, cyclic=False, modes=("sync", "det"), cancel_p
                 fresh = gen_program(rng, cyclic=cyc2) if allow is None else gen_program(rng, cyclic=cyc2, allow=allow)
                 k = rng.choice(DERIVED)
                 oldsig = newprog[k]["sig"]; newprog[k] = fresh[k]; newprog[k]["sig"] = oldsig + 1
-            cb.engine(db=dbpath, newprog=newprog)
+            if rng.random() < ver_p: ver = 3 - ver        # the client (schema) version changes: the stored results must not be interpreted
+            cb.engine(db=dbpath, newprog=newprog, ver=ver)
         else:
             k = rng.choice(KEYS if rng.random() < 0.3 else DERIVED)
             kw = dict(mode=rng.choice(modes), seed=rng.randrange(1 << 30))
